@@ -91,6 +91,10 @@ FUNCTIONS = [
     # parallelize: one turn of the fetcher's loop (the queues as values)
     ('par_producer_loop', 'dataflows.processors.parallelize', ['producer', '@try:0', '@for:0'],
      ['res', 'q_in', 'q_internal']),
+    ('par_work_body', 'dataflows.processors.parallelize', ['work', '@try:0', '@while:0', '@body'],
+     ['q_in', 'q_out', 'pid'], {'wb': ['row_func']}),
+    ('par_collector_body', 'dataflows.processors.parallelize', ['fork', '@for:0', '@if:0', '@while:0', '@body'],
+     ['q_internal']),
     ('par_fetcher_body', 'dataflows.processors.parallelize', ['fetcher', '@while:0', '@body'],
      ['q_out', 'q_internal', 'expected_nones']),
     # concatenate: the source-field -> target-field mapping
